@@ -13,6 +13,7 @@ mod shared;
 
 use qmc::sse::fast_ops::FastOp;
 use qmc::sse::qmc_traits::*;
+use shared::samplers::*;
 use shared::*;
 use vh::*;
 
@@ -435,6 +436,121 @@ fn prob_heatbath(g: &mut SplitMix64) -> bool {
     true
 }
 
+/// Generic sampler `Qmc` with heat-bath on: the sampler has already swept (its lazily built table exists) when a
+/// further interaction is added — in most cases one whose diagonal entries are all equal (transverse-field-like
+/// term / constant shift) — and then sweeps on. The sweeps are replayed by the model with the table of the CURRENT
+/// interaction list (`gsweep`), and the insert probability of the NEW bond is bisected (`gprob`).
+fn generic(g: &mut SplitMix64, ncases: usize) {
+    let mut done = 0;
+    let mut tries = 0;
+    while done < ncases && tries < ncases * 20 {
+        tries += 1;
+        let rng = SharedRng::new(g.next());
+        let mut smp = if g.chance(1, 4) { gen_generic_multi(g, &rng) } else { gen_generic(g, &rng) };
+        enable_heatbath(&mut smp, true);
+        let beta = *g.pick(&[0.25, 0.5, 1.0, 2.0]);
+        let warm = g.range(0, 4);
+        let mut ok = true;
+        for _ in 0..warm {
+            ok &= catch(|| smp.timestep(beta)).is_ok();
+        }
+        if !ok {
+            continue;
+        }
+        let had_table = smp.table().is_some();
+        let mut new_bond = None;
+        let mut kind = "generic_plain";
+        if g.chance(3, 4) {
+            if let Smp::Gen(q, vars_list) = &mut smp {
+                let nvars = q.clone_state().len();
+                let r = g.below(4);
+                let w = *g.pick(&[0.25, 0.5, 1.0, 2.0]);
+                let res = if r == 0 {
+                    // constant single-site term (all 4 entries equal)
+                    let v = g.below(nvars as u64) as usize;
+                    vars_list.push(vec![v]);
+                    kind = "generic_add_constant_term";
+                    q.make_interaction(vec![w; 4], vec![v])
+                } else if r == 1 {
+                    // full matrix, equal diagonal, other off-diagonal entries
+                    let v = g.below(nvars as u64) as usize;
+                    vars_list.push(vec![v]);
+                    kind = "generic_add_equal_diagonal_full";
+                    q.make_interaction(vec![w, 0.5, 0.5, w], vec![v])
+                } else if r == 2 {
+                    // diagonal constructor with a constant diagonal (pure energy shift), 1 or 2 variables
+                    let k = if nvars >= 2 && g.coin() { 2 } else { 1 };
+                    let mut vars: Vec<usize> = vec![];
+                    while vars.len() < k {
+                        let v = g.below(nvars as u64) as usize;
+                        if !vars.contains(&v) {
+                            vars.push(v);
+                        }
+                    }
+                    vars_list.push(vars.clone());
+                    kind = "generic_add_constant_diagonal";
+                    q.make_diagonal_interaction(vec![w; 1 << k], vars)
+                } else {
+                    let (mat, vars, d) = gen_interaction(g, nvars);
+                    vars_list.push(vars.clone());
+                    kind = "generic_add_state_dependent";
+                    add_interaction(q, &mat, &vars, d)
+                };
+                if res.is_err() {
+                    continue;
+                }
+                new_bond = Some(vars_list.len() - 1);
+            }
+            if had_table {
+                stat("generic_added_after_table_was_built", 1);
+            }
+        }
+        // --- trajectories of the next sweeps
+        let mut failed = false;
+        for _ in 0..g.range(1, 3) {
+            let cfg = cfg_of(&smp, beta);
+            rng.take_log();
+            if let Err(p) = catch(|| smp.sweep(beta)) {
+                emit(true, &format!("sweep-panic {}", kind), "PANIC", Some(Err(format!("diagonal_update panicked: {}", p))));
+                failed = true;
+                break;
+            }
+            let log = rng.take_log();
+            let out = RunOut { slots: smp.slots(), state: smp.state(), n: smp.get_n(), log: log.clone(), calls: vec![] };
+            let mut oracle = sweep_oracle(&cfg, &out);
+            if oracle.is_ok() {
+                oracle = check_table(&smp.table(), &cfg.bonds, true);
+            }
+            let input = format!(
+                "gsweep {} {} {} {} {} {}",
+                show_table_ham(&cfg.bonds),
+                rat(beta),
+                cfg.cutoff,
+                bits(&cfg.state),
+                show_cfg_slots(&cfg.slots),
+                words(&log)
+            );
+            stat(&format!("generic_traj_{}", kind), 1);
+            emit(true, &input, &format!("{} {} ok", show_cfg_slots(&out.slots), bits(&out.state)), Some(oracle));
+            if g.coin() && catch(|| smp.timestep(beta)).is_err() {
+                failed = true;
+                break;
+            }
+        }
+        if failed {
+            continue;
+        }
+        // --- insert/remove probabilities, preferably of the bond just added
+        let bond = if g.chance(3, 4) { new_bond } else { None };
+        if prob_on(g, &rng, smp, kind, beta, ProbOpts { bond, table_from_ham: true }) {
+            if bond.is_some() {
+                stat("generic_prob_on_new_bond", 1);
+            }
+        }
+        done += 1;
+    }
+}
+
 fn main() {
     quiet_panics();
     let a = args();
@@ -460,6 +576,7 @@ fn main() {
                 }
             }
         }
+        "generic" => generic(&mut g, if a.thorough { 3000 } else { 300 }),
         m => panic!("unknown mode {}", m),
     }
 }
